@@ -367,10 +367,15 @@ def gen_op(rng: random.Random, kinds, near=None):
         else:
             x, y = rng.randrange(0, 400), rng.randrange(0, 400)
         step = rng.choice([1, 1, 1, 2, 3, 7, 50, 1000]) if rng.random() < 0.95 else rng.choice([0, -1])
+        if near is not None and step > 0:
+            dmax = max(abs(x - near[0]), abs(y - near[1]))
+            if dmax // step > 400:   # keep the number of intermediate moves bounded
+                step = rng.choice([dmax // 100 + 1, dmax - 1, dmax, dmax + 1, dmax // 2])
         return (k, x, y, step)
     if k == "paste":
         n = rng.choice([0, 1, 2, 17, 300])
-        alphabet = "abc \n\xe9\xff\x00" if rng.random() < 0.9 else "abĀ€"
+        alphabet = ["a", "b", " ", "\n", "\r", "\r\n", "\t", "\xe9", "\xff", "\x00", "\\", "'"] \
+            if rng.random() < 0.9 else ["a", "b", "Ā", "€"]
         return (k, "".join(rng.choice(alphabet) for _ in range(n)))
     if k in ("refreshScreen", "captureScreen"):
         return (k, rng.choice([0, 1]))
